@@ -53,6 +53,7 @@ type Contract struct {
 	Line     int
 	Makes    map[int]*Clause // make#k: limit expression (allocation bound obligations)
 	Lets     []LetDef
+	Implements string // iface contract whose clauses this function must satisfy
 }
 
 type LetDef struct {
@@ -332,6 +333,8 @@ func (sp *Specs) parseText(file string, lines []string, nums []int) error {
 					cur.Uses = append(cur.Uses, m)
 				}
 			}
+		case "implements":
+			cur.Implements = rest
 		case "inline":
 			cur.Inline = true
 		case "noeffect":
@@ -406,6 +409,25 @@ func (sp *Specs) parseText(file string, lines []string, nums []int) error {
 		default:
 			return fail(fmt.Errorf("unknown clause %q", word))
 		}
+	}
+	return nil
+}
+
+// resolveImplements copies the clauses of the interface contract into each implementing contract.
+func (sp *Specs) resolveImplements() error {
+	for _, c := range sp.Contracts {
+		if c.Implements == "" {
+			continue
+		}
+		ic := sp.Contracts[c.Implements]
+		if ic == nil || ic.Kind != "iface" {
+			return fmt.Errorf("%s: implements unknown interface contract %s", c.Key, c.Implements)
+		}
+		c.Requires = append(append([]*Clause{}, ic.Requires...), c.Requires...)
+		c.Ensures = append(append([]*Clause{}, ic.Ensures...), c.Ensures...)
+		c.Modifies = append(append([]string{}, ic.Modifies...), c.Modifies...)
+		c.Uses = append(append([]string{}, ic.Uses...), c.Uses...)
+		c.Lets = append(append([]LetDef{}, ic.Lets...), c.Lets...)
 	}
 	return nil
 }
